@@ -52,6 +52,13 @@ def run(tier, replay):
         dist += mc["distinct"]
         for ops in mc["prints"].get("REPLAY", []):
             cases.append({"id": len(cases) + 1, "nh": 2, "n": n, "ops": ops})
+    # pinned witnesses of repaired findings stay in the regression set
+    for kf in vlib.known_findings():
+        w = kf.get("witness")
+        if PROP in kf.get("properties", []) and isinstance(w, dict) and w.get("kind") == "pt":
+            c = dict(w["case"])
+            c["id"] = len(cases) + 1
+            cases.append(c)
     res1 = execute_and_validate(v, cases, "c08-exh")
     rnd = []
     for n in range(0, 10):
